@@ -1,4 +1,6 @@
 import Usid.Model.Reduce
+import Usid.Proofs.ReduceFile
+import Usid.Properties.C10
 import Usid.Proofs.Cartesian
 import Usid.Proofs.Translate
 /-! C12 — reducing named dimensions equals the axis reduction, in memory and on file.
@@ -209,5 +211,358 @@ theorem cell_exact (view : NDArr α) (axes idx : List Nat) (hb : InBounds view.s
     · rw [fullIdx_split rank axes idx hlen]
   · intro ri _
     exact fullIdx_keep rank axes ki ri (by simp [ki, keep])
+
+/-! ### the dataset written by `reduce(to_hdf5=True)` -/
+open Usid.Grid Usid.C09 Usid.ReduceAnc Usid.Relabel Usid.Reshape Usid.Dims in
+/-- **On file.**  For every pair of regular-grid sides (any sizes, any storage permutation), distinct labels,
+    EVERY N-D array `view` of the file-order shape, and every non-empty list of dimension names that leaves at
+    least one dimension on each side (the remaining sides having at most as many dimensions as points - the
+    guard of the known finding D5a):  `reduce(dims, to_hdf5=True)` succeeds; each side of the new dataset
+    carries the labels and units of its remaining dimensions, the regular grid over those dimensions (same
+    relative rate order) and that grid's values with the ORIGINAL reference values (for an untouched side
+    these are the source's own matrices); the data is N' x M' and its element (r, c) is the cell of the
+    reduced array at (position indices of row r ++ spectroscopic indices of column c) read from the NEW
+    ancillaries - which by `cell_exact` is the list of exactly the source elements sharing those remaining
+    coordinates. -/
+theorem file_form (view : NDArr α) (pS pR sS sR : List Nat) (plabs slabs punits sunits : List String)
+    (pV sV : List (List Int)) (dims : List String)
+    (hP : ValidGrid pS pR) (hS : ValidGrid sS sR)
+    (hlp : plabs.length = pS.length) (hls : slabs.length = sS.length)
+    (hup : punits.length = pS.length) (hus : sunits.length = sS.length)
+    (hnd : (plabs ++ slabs).Nodup) (hshape : view.shape = pS ++ sS)
+    (hne : dims ≠ []) (hdims : ∀ d ∈ dims, d ∈ plabs ++ slabs)
+    (p0 : Nat) (hp0 : p0 ∈ keptOf plabs dims) (s0 : Nat) (hs0 : s0 ∈ keptOf slabs dims)
+    (hkP : (keptOf plabs dims).length ≤
+      npoints (sizeFn ((keptOf plabs dims).map (sizeFn pS))) (rateOf pR (keptOf plabs dims)))
+    (hkS : (keptOf slabs dims).length ≤
+      npoints (sizeFn ((keptOf slabs dims).map (sizeFn sS))) (rateOf sR (keptOf slabs dims))) :
+    let KP := keptOf plabs dims
+    let KS := keptOf slabs dims
+    let pS' := KP.map (sizeFn pS)
+    let pR' := rateOf pR KP
+    let sS' := KS.map (sizeFn sS)
+    let sR' := rateOf sR KS
+    let axes := dims.map (fun d => (plabs ++ slabs).findIdx (· == d))
+    ∃ res, reduceToFile view (plabs ++ slabs) (sideK pS pR plabs punits pV) (sideK sS sR slabs sunits sV) dims = .ok res ∧
+      res.pos = ⟨KP.map (fun d => plabs.getD d ""), KP.map (fun d => punits.getD d ""), gridMatrix pS' pR',
+                 valueMatrix pS' pR' (KP.map (fun d => pV.getD d []))⟩ ∧
+      res.spec = ⟨KS.map (fun d => slabs.getD d ""), KS.map (fun d => sunits.getD d ""), gridMatrix sS' sR',
+                  valueMatrix sS' sR' (KS.map (fun d => sV.getD d []))⟩ ∧
+      ValidGrid pS' pR' ∧ ValidGrid sS' sR' ∧
+      res.data.shape = [npoints (sizeFn pS') pR', npoints (sizeFn sS') sR'] ∧
+      ∀ r c, r < npoints (sizeFn pS') pR' → c < npoints (sizeFn sS') sR' →
+        res.data.get [r, c] =
+          (reduceGroups view axes).get (coords pS' pR' r (List.range KP.length) ++ coords sS' sR' c (List.range KS.length)) := by
+  intro KP KS pS' pR' sS' sR' axes
+  obtain ⟨hposSide, hP'⟩ := side_after pS pR plabs punits pV dims hP hlp hup p0 hp0
+  obtain ⟨hspecSide, hS'⟩ := side_after sS sR slabs sunits sV dims hS hls hus s0 hs0
+  have hlenP' : pS'.length = KP.length := by simp [pS']
+  have hlenS' : sS'.length = KS.length := by simp [sS']
+  have hKPpos : 1 ≤ KP.length := List.length_pos_iff.mpr (List.ne_nil_of_mem hp0)
+  have hKSpos : 1 ≤ KS.length := List.length_pos_iff.mpr (List.ne_nil_of_mem hs0)
+  -- the reduced array and its shape
+  have hmem : reduceMem view (plabs ++ slabs) dims = .ok (reduceGroups view axes) := by
+    unfold reduceMem
+    have h1 : dims.isEmpty = false := by
+      cases dims with
+      | nil => exact absurd rfl hne
+      | cons _ _ => rfl
+    have h2 : dims.all (fun d => (plabs ++ slabs).contains d) = true := by
+      rw [List.all_eq_true]; intro d hd; simpa using hdims d hd
+    simp only [h1, h2, Bool.false_eq_true, if_false, Bool.not_true]
+    rfl
+  have hKPlt : ∀ d ∈ KP, d < pS.length := by
+    intro d hd
+    have := List.mem_range.mp (List.mem_filter.mp hd).1
+    omega
+  have hKSlt : ∀ d ∈ KS, d < sS.length := by
+    intro d hd
+    have := List.mem_range.mp (List.mem_filter.mp hd).1
+    omega
+  have hgshape : (reduceGroups view axes).shape = pS' ++ sS' := by
+    show ((List.range view.shape.length).filter (fun a => !axes.contains a)).map (fun a => view.shape.getD a 0) = _
+    rw [hshape, List.length_append, ← hlp, ← hls, Usid.ReduceFile.keep_axes plabs slabs dims hnd hdims, List.map_append, List.map_map]
+    congr 1
+    · apply List.map_congr_left
+      intro d hd
+      have hdk := hKPlt d hd
+      simp [sizeFn, List.getD_eq_getElem?_getD, List.getElem?_append_left hdk, List.getElem?_eq_getElem hdk]
+    · apply List.map_congr_left
+      intro d hd
+      have hdk := hKSlt d hd
+      simp only [Function.comp]
+      rw [hlp]
+      simp [sizeFn, List.getD_eq_getElem?_getD, List.getElem?_append_right, List.getElem?_eq_getElem hdk]
+  -- the position matrix handed to reshape_from_n_dims
+  have hNP : 0 < npoints (sizeFn pS') pR' := by
+    obtain ⟨_, hpos, _⟩ := valid_facts pS' pR' hP'
+    exact prod_pos _ pR' (fun e he => (hpos e he).2)
+  have hgm_ne : gridMatrix pS' pR' ≠ [] := by
+    unfold gridMatrix
+    rw [hlenP']
+    intro hh
+    have := congrArg List.length hh
+    have h0 : KP.length = 0 := by simpa using this
+    omega
+  have hrowlen : ∀ row ∈ gridMatrix pS' pR', row.length = npoints (sizeFn pS') pR' := by
+    intro row hr
+    unfold gridMatrix at hr
+    obtain ⟨d, _, rfl⟩ := List.mem_map.mp hr
+    simp [gridRow]
+  have htt := Usid.ReduceFile.transposeM_transposeM (gridMatrix pS' pR') _ hgm_ne hNP hrowlen
+  have hrows : (transposeM (gridMatrix pS' pR')).length = npoints (sizeFn pS') pR' := by
+    unfold gridMatrix
+    obtain ⟨n, hn⟩ : ∃ n, pS'.length = n + 1 := ⟨pS'.length - 1, by omega⟩
+    rw [hn, List.range_succ_eq_map]
+    simp [transposeM, gridRow]
+  have hcols : ncols (transposeM (gridMatrix pS' pR')) = pS'.length := by
+    unfold ncols
+    obtain ⟨n, hn⟩ : ∃ n, pS'.length = n + 1 := ⟨pS'.length - 1, by omega⟩
+    obtain ⟨m, hm⟩ : ∃ m, npoints (sizeFn pS') pR' = m + 1 := ⟨npoints (sizeFn pS') pR' - 1, by omega⟩
+    unfold gridMatrix
+    rw [hn, List.range_succ_eq_map]
+    simp only [transposeM, List.map_cons, gridRow, List.length_map, List.length_range]
+    rw [hm, List.range_succ_eq_map]
+    simp
+  obtain ⟨R, hR, hRshape, _, hRget⟩ := Usid.C10.flatten_reads_coordinates (reduceGroups view axes) pS' pR' sS' sR'
+    (transposeM (gridMatrix pS' pR')) hP' hS' (by rw [hlenP']; exact hkP) (by rw [hlenS']; exact hkS)
+    (by omega) (by omega) htt hrows hcols hgshape
+  have hmS : ncols (gridMatrix sS' sR') = npoints (sizeFn sS') sR' := by
+    unfold ncols gridMatrix
+    obtain ⟨n, hn⟩ : ∃ n, sS'.length = n + 1 := ⟨sS'.length - 1, by omega⟩
+    rw [hn, List.range_succ_eq_map]
+    simp [gridRow]
+  refine ⟨⟨R, newSide (sideK pS pR plabs punits pV) dims, newSide (sideK sS sR slabs sunits sV) dims,
+      !dims.any (fun d => (sideK pS pR plabs punits pV).labels.contains d),
+      !dims.any (fun d => (sideK sS sR slabs sunits sV).labels.contains d)⟩, ?_, hposSide, hspecSide, hP', hS', hRshape, ?_⟩
+  · unfold reduceToFile
+    have hR' : reshapeFromNDimsBoth (reduceGroups view axes)
+        (transposeM (gridMatrix ((keptOf plabs dims).map (sizeFn pS)) (rateOf pR (keptOf plabs dims))))
+        (gridMatrix ((keptOf slabs dims).map (sizeFn sS)) (rateOf sR (keptOf slabs dims))) = .ok R := hR
+    have hrows' : (transposeM (gridMatrix ((keptOf plabs dims).map (sizeFn pS)) (rateOf pR (keptOf plabs dims)))).length =
+        npoints (sizeFn pS') pR' := hrows
+    have hmS' : ncols (gridMatrix ((keptOf slabs dims).map (sizeFn sS)) (rateOf sR (keptOf slabs dims))) =
+        npoints (sizeFn sS') sR' := hmS
+    simp only [hmem, hposSide, hspecSide, hR', hRshape, hrows', hmS', List.length_cons, List.length_nil,
+      List.getD_cons_zero, List.getD_cons_succ, bne_self_eq_false, Bool.or_self, Bool.false_eq_true, if_false]
+  · intro r c hr hc
+    rw [hlenP', hlenS'] at hRget
+    exact hRget r c hr hc
+
+open Usid.Grid Usid.C09 Usid.ReduceAnc Usid.Relabel Usid.Reshape Usid.Dims in
+/-- a side all of whose dimensions are reduced becomes the one-point placeholder -/
+theorem side_all_reduced (S R : List Nat) (labels units : List String) (values : List (List Int)) (dims : List String)
+    (hl : labels.length = S.length) (hk : 1 ≤ S.length) (hall : keptOf labels dims = []) :
+    newSide (sideK S R labels units values) dims =
+      { labels := ["Single_Step"], units := ["a. u."], inds := [[0]], vals := [[0]] } := by
+  have hmem : ∀ d, d < labels.length → labels.getD d "" ∈ dims := by
+    intro d hd
+    have : d ∉ keptOf labels dims := by rw [hall]; simp
+    unfold keptOf at this
+    have h2 : ¬ ((!dims.contains (labels.getD d "")) = true) := fun hh =>
+      this (List.mem_filter.mpr ⟨List.mem_range.mpr hd, hh⟩)
+    simpa using h2
+  have hin : ∀ d, d < labels.length → labels.getD d "" ∈ labels := by
+    intro d hd
+    rw [List.getD_eq_getElem?_getD, List.getElem?_eq_getElem hd]; exact List.getElem_mem hd
+  unfold newSide sideK
+  have hany : dims.any (fun d => labels.contains d) = true := by
+    rw [List.any_eq_true]
+    exact ⟨labels.getD 0 "", hmem 0 (by omega), by simpa using hin 0 (by omega)⟩
+  simp only [hany, if_true]
+  apply reduced_anc_all_removed
+  intro d hd
+  exact List.mem_filter.mpr ⟨hmem d hd, by simpa using hin d hd⟩
+
+open Usid.Grid Usid.C09 Usid.ReduceAnc Usid.Relabel Usid.Reshape Usid.Dims in
+/-- **On file, every position dimension reduced.**  The position side becomes the one-point placeholder, the
+    reduced array has no position axis, and (at least two spectroscopic dimensions remaining) the written
+    data is 1 x M' with element (0, c) = the cell at the spectroscopic indices of column c. -/
+theorem file_form_pos_reduced (view : NDArr α) (pS pR sS sR : List Nat) (plabs slabs punits sunits : List String)
+    (pV sV : List (List Int)) (dims : List String)
+    (hS : ValidGrid sS sR)
+    (hlp : plabs.length = pS.length) (hls : slabs.length = sS.length) (hus : sunits.length = sS.length)
+    (hkp : 1 ≤ pS.length)
+    (hnd : (plabs ++ slabs).Nodup) (hshape : view.shape = pS ++ sS)
+    (hne : dims ≠ []) (hdims : ∀ d ∈ dims, d ∈ plabs ++ slabs)
+    (hallP : keptOf plabs dims = []) (hks2 : 2 ≤ (keptOf slabs dims).length)
+    (hkS : (keptOf slabs dims).length ≤
+      npoints (sizeFn ((keptOf slabs dims).map (sizeFn sS))) (rateOf sR (keptOf slabs dims))) :
+    let KS := keptOf slabs dims
+    let sS' := KS.map (sizeFn sS)
+    let sR' := rateOf sR KS
+    let axes := dims.map (fun d => (plabs ++ slabs).findIdx (· == d))
+    ∃ res, reduceToFile view (plabs ++ slabs) (sideK pS pR plabs punits pV) (sideK sS sR slabs sunits sV) dims = .ok res ∧
+      res.pos = { labels := ["Single_Step"], units := ["a. u."], inds := [[0]], vals := [[0]] } ∧
+      res.spec = ⟨KS.map (fun d => slabs.getD d ""), KS.map (fun d => sunits.getD d ""), gridMatrix sS' sR',
+                  valueMatrix sS' sR' (KS.map (fun d => sV.getD d []))⟩ ∧
+      ValidGrid sS' sR' ∧
+      res.data.shape = [1, npoints (sizeFn sS') sR'] ∧
+      ∀ c, c < npoints (sizeFn sS') sR' →
+        res.data.get [0, c] = (reduceGroups view axes).get (coords sS' sR' c (List.range KS.length)) := by
+  intro KS sS' sR' axes
+  obtain ⟨s0, hs0⟩ : ∃ s0, s0 ∈ keptOf slabs dims := by
+    cases hk : keptOf slabs dims with
+    | nil => rw [hk] at hks2; simp at hks2
+    | cons a _ => exact ⟨a, List.mem_cons_self⟩
+  have hposSide := side_all_reduced pS pR plabs punits pV dims hlp hkp hallP
+  obtain ⟨hspecSide, hS'⟩ := side_after sS sR slabs sunits sV dims hS hls hus s0 hs0
+  have hlenS' : sS'.length = KS.length := by simp [sS']
+  have hks2' : 2 ≤ KS.length := hks2
+  have hmem : reduceMem view (plabs ++ slabs) dims = .ok (reduceGroups view axes) := by
+    unfold reduceMem
+    have h1 : dims.isEmpty = false := by
+      cases dims with
+      | nil => exact absurd rfl hne
+      | cons _ _ => rfl
+    have h2 : dims.all (fun d => (plabs ++ slabs).contains d) = true := by
+      rw [List.all_eq_true]; intro d hd; simpa using hdims d hd
+    simp only [h1, h2, Bool.false_eq_true, if_false, Bool.not_true]
+    rfl
+  have hKSlt : ∀ d ∈ KS, d < sS.length := by
+    intro d hd
+    have := List.mem_range.mp (List.mem_filter.mp hd).1
+    omega
+  have hgshape : (reduceGroups view axes).shape = sS' := by
+    show ((List.range view.shape.length).filter (fun a => !axes.contains a)).map (fun a => view.shape.getD a 0) = _
+    rw [hshape, List.length_append, ← hlp, ← hls, Usid.ReduceFile.keep_axes plabs slabs dims hnd hdims, hallP,
+      List.nil_append, List.map_map]
+    apply List.map_congr_left
+    intro d hd
+    have hdk := hKSlt d hd
+    simp only [Function.comp]
+    rw [hlp]
+    simp [sizeFn, List.getD_eq_getElem?_getD, List.getElem?_append_right, List.getElem?_eq_getElem hdk]
+  obtain ⟨R, hR, hRshape, hRget⟩ := Usid.C10.flatten_squeezed_pos (reduceGroups view axes) sS' sR' hS'
+    (by rw [hlenS']; exact hkS) (by rw [hlenS']; exact hks2) hgshape
+  have hmS : ncols (gridMatrix sS' sR') = npoints (sizeFn sS') sR' := by
+    unfold ncols gridMatrix
+    obtain ⟨n, hn⟩ : ∃ n, sS'.length = n + 1 := ⟨sS'.length - 1, by omega⟩
+    rw [hn, List.range_succ_eq_map]
+    simp [gridRow]
+  refine ⟨⟨R, newSide (sideK pS pR plabs punits pV) dims, newSide (sideK sS sR slabs sunits sV) dims,
+      !dims.any (fun d => (sideK pS pR plabs punits pV).labels.contains d),
+      !dims.any (fun d => (sideK sS sR slabs sunits sV).labels.contains d)⟩, ?_, hposSide, hspecSide, hS', hRshape, ?_⟩
+  · unfold reduceToFile
+    have ht : transposeM ([[0]] : List (List Nat)) = [[0]] := by decide
+    have hR' : reshapeFromNDimsBoth (reduceGroups view axes) [[0]]
+        (gridMatrix ((keptOf slabs dims).map (sizeFn sS)) (rateOf sR (keptOf slabs dims))) = .ok R := hR
+    have hmS' : ncols (gridMatrix ((keptOf slabs dims).map (sizeFn sS)) (rateOf sR (keptOf slabs dims))) =
+        npoints (sizeFn sS') sR' := hmS
+    simp only [hmem, hposSide, hspecSide, ht, hR', hRshape, hmS', List.length_cons, List.length_nil,
+      List.getD_cons_zero, List.getD_cons_succ, bne_self_eq_false, Bool.or_self, Bool.false_eq_true, if_false]
+  · intro c hc
+    rw [hlenS'] at hRget
+    exact hRget c hc
+
+open Usid.Grid Usid.C09 Usid.ReduceAnc Usid.Relabel Usid.Reshape Usid.Dims in
+/-- **On file, every spectroscopic dimension reduced**: the mirror image - N' x 1, element (r, 0) = the cell at
+    the position indices of row r. -/
+theorem file_form_spec_reduced (view : NDArr α) (pS pR sS sR : List Nat) (plabs slabs punits sunits : List String)
+    (pV sV : List (List Int)) (dims : List String)
+    (hP : ValidGrid pS pR)
+    (hlp : plabs.length = pS.length) (hls : slabs.length = sS.length) (hup : punits.length = pS.length)
+    (hks : 1 ≤ sS.length)
+    (hnd : (plabs ++ slabs).Nodup) (hshape : view.shape = pS ++ sS)
+    (hne : dims ≠ []) (hdims : ∀ d ∈ dims, d ∈ plabs ++ slabs)
+    (hallS : keptOf slabs dims = []) (hkp2 : 2 ≤ (keptOf plabs dims).length)
+    (hkP : (keptOf plabs dims).length ≤
+      npoints (sizeFn ((keptOf plabs dims).map (sizeFn pS))) (rateOf pR (keptOf plabs dims))) :
+    let KP := keptOf plabs dims
+    let pS' := KP.map (sizeFn pS)
+    let pR' := rateOf pR KP
+    let axes := dims.map (fun d => (plabs ++ slabs).findIdx (· == d))
+    ∃ res, reduceToFile view (plabs ++ slabs) (sideK pS pR plabs punits pV) (sideK sS sR slabs sunits sV) dims = .ok res ∧
+      res.pos = ⟨KP.map (fun d => plabs.getD d ""), KP.map (fun d => punits.getD d ""), gridMatrix pS' pR',
+                 valueMatrix pS' pR' (KP.map (fun d => pV.getD d []))⟩ ∧
+      res.spec = { labels := ["Single_Step"], units := ["a. u."], inds := [[0]], vals := [[0]] } ∧
+      ValidGrid pS' pR' ∧
+      res.data.shape = [npoints (sizeFn pS') pR', 1] ∧
+      ∀ r, r < npoints (sizeFn pS') pR' →
+        res.data.get [r, 0] = (reduceGroups view axes).get (coords pS' pR' r (List.range KP.length)) := by
+  intro KP pS' pR' axes
+  obtain ⟨p0, hp0⟩ : ∃ p0, p0 ∈ keptOf plabs dims := by
+    cases hk : keptOf plabs dims with
+    | nil => rw [hk] at hkp2; simp at hkp2
+    | cons a _ => exact ⟨a, List.mem_cons_self⟩
+  have hspecSide := side_all_reduced sS sR slabs sunits sV dims hls hks hallS
+  obtain ⟨hposSide, hP'⟩ := side_after pS pR plabs punits pV dims hP hlp hup p0 hp0
+  have hlenP' : pS'.length = KP.length := by simp [pS']
+  have hkp2' : 2 ≤ KP.length := hkp2
+  have hmem : reduceMem view (plabs ++ slabs) dims = .ok (reduceGroups view axes) := by
+    unfold reduceMem
+    have h1 : dims.isEmpty = false := by
+      cases dims with
+      | nil => exact absurd rfl hne
+      | cons _ _ => rfl
+    have h2 : dims.all (fun d => (plabs ++ slabs).contains d) = true := by
+      rw [List.all_eq_true]; intro d hd; simpa using hdims d hd
+    simp only [h1, h2, Bool.false_eq_true, if_false, Bool.not_true]
+    rfl
+  have hKPlt : ∀ d ∈ KP, d < pS.length := by
+    intro d hd
+    have := List.mem_range.mp (List.mem_filter.mp hd).1
+    omega
+  have hgshape : (reduceGroups view axes).shape = pS' := by
+    show ((List.range view.shape.length).filter (fun a => !axes.contains a)).map (fun a => view.shape.getD a 0) = _
+    rw [hshape, List.length_append, ← hlp, ← hls, Usid.ReduceFile.keep_axes plabs slabs dims hnd hdims, hallS,
+      List.map_nil, List.append_nil]
+    apply List.map_congr_left
+    intro d hd
+    have hdk := hKPlt d hd
+    simp [sizeFn, List.getD_eq_getElem?_getD, List.getElem?_append_left hdk, List.getElem?_eq_getElem hdk]
+  have hNP : 0 < npoints (sizeFn pS') pR' := by
+    obtain ⟨_, hpos, _⟩ := valid_facts pS' pR' hP'
+    exact prod_pos _ pR' (fun e he => (hpos e he).2)
+  have hgm_ne : gridMatrix pS' pR' ≠ [] := by
+    unfold gridMatrix
+    rw [hlenP']
+    intro hh
+    have := congrArg List.length hh
+    have h0 : KP.length = 0 := by simpa using this
+    omega
+  have hrowlen : ∀ row ∈ gridMatrix pS' pR', row.length = npoints (sizeFn pS') pR' := by
+    intro row hr
+    unfold gridMatrix at hr
+    obtain ⟨d, _, rfl⟩ := List.mem_map.mp hr
+    simp [gridRow]
+  have htt := Usid.ReduceFile.transposeM_transposeM (gridMatrix pS' pR') _ hgm_ne hNP hrowlen
+  have hrows : (transposeM (gridMatrix pS' pR')).length = npoints (sizeFn pS') pR' := by
+    unfold gridMatrix
+    obtain ⟨n, hn⟩ : ∃ n, pS'.length = n + 1 := ⟨pS'.length - 1, by omega⟩
+    rw [hn, List.range_succ_eq_map]
+    simp [transposeM, gridRow]
+  have hcols : ncols (transposeM (gridMatrix pS' pR')) = pS'.length := by
+    unfold ncols
+    obtain ⟨n, hn⟩ : ∃ n, pS'.length = n + 1 := ⟨pS'.length - 1, by omega⟩
+    obtain ⟨m, hm⟩ : ∃ m, npoints (sizeFn pS') pR' = m + 1 := ⟨npoints (sizeFn pS') pR' - 1, by omega⟩
+    unfold gridMatrix
+    rw [hn, List.range_succ_eq_map]
+    simp only [transposeM, List.map_cons, gridRow, List.length_map, List.length_range]
+    rw [hm, List.range_succ_eq_map]
+    simp
+  obtain ⟨R, hR, hRshape, hRget⟩ := Usid.C10.flatten_squeezed_spec (reduceGroups view axes) pS' pR'
+    (transposeM (gridMatrix pS' pR')) hP' (by rw [hlenP']; exact hkP) (by rw [hlenP']; exact hkp2) htt hrows hcols hgshape
+  refine ⟨⟨R, newSide (sideK pS pR plabs punits pV) dims, newSide (sideK sS sR slabs sunits sV) dims,
+      !dims.any (fun d => (sideK pS pR plabs punits pV).labels.contains d),
+      !dims.any (fun d => (sideK sS sR slabs sunits sV).labels.contains d)⟩, ?_, hposSide, hspecSide, hP', hRshape, ?_⟩
+  · unfold reduceToFile
+    have hnc : ncols ([[0]] : List (List Nat)) = 1 := rfl
+    have hR' : reshapeFromNDimsBoth (reduceGroups view axes)
+        (transposeM (gridMatrix ((keptOf plabs dims).map (sizeFn pS)) (rateOf pR (keptOf plabs dims)))) [[0]] = .ok R := hR
+    have hrows' : (transposeM (gridMatrix ((keptOf plabs dims).map (sizeFn pS)) (rateOf pR (keptOf plabs dims)))).length =
+        npoints (sizeFn pS') pR' := hrows
+    simp only [hmem, hposSide, hspecSide, hnc, hR', hRshape, hrows', List.length_cons, List.length_nil,
+      List.getD_cons_zero, List.getD_cons_succ, bne_self_eq_false, Bool.or_self, Bool.false_eq_true, if_false]
+  · intro r hr
+    rw [hlenP'] at hRget
+    exact hRget r hr
+
+/-- the hypotheses of `file_form` are satisfiable: a 2 x 3 position grid stored slowest first, a 2 x 2
+    spectroscopic grid, reducing the second position dimension -/
+example : Usid.C09.ValidGrid [2, 3] [1, 0] ∧ Usid.C09.ValidGrid [2, 2] [0, 1] ∧
+    Usid.ReduceAnc.keptOf ["a", "b"] ["b"] = [0] ∧ Usid.ReduceAnc.keptOf ["c", "d"] ["b"] = [0, 1] ∧
+    (["a", "b"] ++ ["c", "d"]).Nodup := by
+  refine ⟨⟨by decide, by decide⟩, ⟨by decide, by decide⟩, by decide, by decide, by decide⟩
 
 end Usid.C12
